@@ -15,6 +15,7 @@ import (
 	"math/rand"
 	"os"
 	"reflect"
+	"strings"
 	"testing"
 
 	"github.com/apache/thrift/lib/go/thrift"
@@ -502,7 +503,9 @@ func TestBoundedC13(t *testing.T) {
 
 func TestReplayC12(t *testing.T) {
 	r := rand.New(rand.NewSource(5))
-	pool := []string{"", "a", "__#NIL#__", "z", "\xff\x00", "kiwi", "plum", "apple", "Z"}
+	pool := []string{"", "a", "__#NIL#__", "z", "\xff\x00", "kiwi", "plum", "apple", "Z",
+		// long values sharing long prefixes: bounds must not be shortened
+		"customer/0000000000000001", "customer/0000000000000000", "zzzzzzzzzzzzzzzzzzzzzzzzzzzzzzzzzzzzzzzz", "zzzzzzzzzzzzzzzz", strings.Repeat("\xff", 70)}
 	for round := 0; round < 60; round++ {
 		n := 1 + r.Intn(9)
 		rs := recs(n, int64(round))
